@@ -2,7 +2,7 @@
     TemplatedFile of a fix run, or a raw patch list) and compare with the implementation's patch
     list and fixed text. No logic of the kernel lives here. *)
 From Coq Require Export String Ascii.
-From Sq Require Import Base.Corr Patch.Model Patch.SpanModel.
+From Sq Require Import Base.Corr Patch.Model Patch.SpanModel Patch.TemplatedModel.
 
 (* compact text literals in generated cases: (S "...") *)
 Definition S (s : string) : str := List.map N_of_ascii (list_ascii_of_string s).
@@ -45,3 +45,54 @@ Definition model_span (a : span_args) : span_out :=
 Definition check_span (a : span_args) (e : span_out) : bool :=
   list_eqb (opt_eqb (list_eqb (pair_eqb N.eqb N.eqb))) (model_span a) e.
 Definition case_t_span : Type := (N * span_args * span_out)%type.
+
+(* group tok (monitor of the premise of C04_templated): (src, tpl or None when equal to src, sliced file as
+   (type: 0 literal / 1 templated / 2 other, source range, templated range), raw slices, final tree) ->
+   outcome the harness observed on the implementation: 0 = placeholders kept and re-rendered fixed source ==
+   tree raw, 1 / 2 / 3 = failed in the recorded class fused-with-neighbour / empty value / patches out of order,
+   4 = failed otherwise, 5 = not observed.
+   [tok_stat]: 1 = slices tile both texts and [tree_ok] holds; 0 = tiling fails; 2 = the ghost walk fails
+   (templated side not in reading order / a changed non-literal leaf / text in a dropped meta); 3 = the root's
+   templated slice is not the whole templated text; 4 = patches not sorted / disjoint / duplicate-free;
+   5 = some patch is not aligned with a literal slice.
+   The check: when the premise holds the observation may only be "fine" or the regex-side class (1: the fixed
+   text is right but the templater's regex reads it differently), never 2 / 3 / 4. *)
+Definition tslice_t := (N * N * N * N * N)%type.
+Definition to_ts (x : tslice_t) : TM.tslice :=
+  let '(ty, a, b, c, d) := x in
+  TM.mk_ts (match ty with 0 => TM.SLit | 1 => TM.STempl | _ => TM.SOther end) a b c d.
+Definition tok_args : Type := (str * option str * list tslice_t * list (N * bool) * seg)%type.
+Definition tok_tf (a : tok_args) : tfile :=
+  let '(s, ot, _, rs, _) := a in mkTf s (match ot with Some t => t | None => s end) rs.
+Definition tok_sl (a : tok_args) : list TM.tslice := let '(_, _, sl, _, _) := a in map to_ts sl.
+Definition tok_stat (a : tok_args) : N :=
+  let tf := tok_tf a in
+  let sl := tok_sl a in
+  let t := snd a in
+  if negb (tilingb (src tf) (tpl tf) sl 0 0) then 0
+  else match dpatches tf t with
+       | None => 2
+       | Some ds =>
+           if negb ((t0 (seg_pos t) =? 0) && (t1 (seg_pos t) =? len (tpl tf))) then 3
+           else if negb (sdb 0 (map spatch ds)) then 4
+           else if negb (forallb (aligned 0 0 sl) ds) then 5
+           else 1
+       end.
+Definition model_tok (a : tok_args) : N * option (list (N * N * N * N * str)) :=
+  (tok_stat a, option_map (map (fun d => (da d, db d, du d, dv d, dr d))) (dpatches (tok_tf a) (snd a))).
+Definition check_tok (a : tok_args) (e : N) : bool :=
+  negb (tok_stat a =? 1) || (e =? 0) || (e =? 1) || (e =? 5).
+Definition case_t_tok : Type := (N * tok_args * N)%type.
+
+(* [tok_stat a = 1] is exactly the premise of [C04_templated] (decidable form) *)
+Lemma tok_stat_premise : forall a, tok_stat a = 1 ->
+  tilingb (src (tok_tf a)) (tpl (tok_tf a)) (tok_sl a) 0 0 = true /\ tree_ok (tok_tf a) (tok_sl a) (snd a) = true.
+Proof.
+  intros a H. unfold tok_stat in H. unfold tree_ok.
+  destruct (tilingb (src (tok_tf a)) (tpl (tok_tf a)) (tok_sl a) 0 0); cbn [negb] in H; [|discriminate].
+  split; [reflexivity|].
+  destruct (dpatches (tok_tf a) (snd a)) as [ds|]; [|discriminate].
+  destruct ((t0 (seg_pos (snd a)) =? 0) && (t1 (seg_pos (snd a)) =? len (tpl (tok_tf a)))); cbn [negb] in H; [|discriminate].
+  destruct (sdb 0 (map spatch ds)); cbn [negb] in H; [|discriminate].
+  destruct (forallb (aligned 0 0 (tok_sl a)) ds); cbn [negb] in H; [reflexivity|discriminate].
+Qed.
